@@ -297,7 +297,7 @@ def minimise(obj):
         raw, steps = ddmin(raw, lambda s: keeps(s, db), max_steps=8)
     else:
         costly = "RecursionError" in fp          # a probe that reproduces it unwinds a full interpreter stack (~1 s)
-        raw, steps = ddmin(raw, lambda s: keeps(s, db), max_steps=80 if costly else 600)
+        raw, steps = ddmin(raw, lambda s: keeps(s, db), max_steps=40 if costly else 600)
         if db:
             # the pages of the wiki database are part of the input: shrink their texts as well
             for k in sorted(db):
@@ -306,7 +306,7 @@ def minimise(obj):
                     d2[k] = v
                     return keeps(raw, d2)
                 if len(db[k]) >= 2:
-                    v, st = ddmin(db[k], keeps_val, max_steps=40 if costly else 150)
+                    v, st = ddmin(db[k], keeps_val, max_steps=16 if costly else 150)
                     steps += st
                     db = dict(db)
                     db[k] = v
